@@ -218,6 +218,17 @@ Section Model.
       | (_, Err e) => [Err e]
       end
     end.
+  (* StreamWriter.encode (l.~455-485) is a copy of IncrementalEncoder.encode that is never told about the end of the
+     text: every write is enc_step with final = False.  The run of a StreamWriter, call by call: *)
+  Fixpoint enc_trace_nf (st : estate) (chunks : list str) : list (res str) :=
+    match chunks with
+    | [] => []
+    | c :: r =>
+      match enc_step st c false with
+      | (st', Ok o) => Ok o :: enc_trace_nf st' r
+      | (_, Err e) => [Err e]
+      end
+    end.
 End Model.
 
 (* what a caller that joins the outputs observes of a trace *)
